@@ -5,6 +5,7 @@
 //   xcrop  <fmt> <pix> <bytes/pixel> <w> <h> <tlx> <tly> <dx> <dy> <src>   F <img> | fn <img> [| fp <img>] | is <img>
 //   xpaths <fmt> <pix> <bytes/pixel> <w> <h> <src>                         img <img> | view <img> <canary> | info <w> <h>
 //   xconv  <fmt> <pix> <bytes/pixel> <w> <h> <dst> <tlx> <tly> <dx> <dy> <src>   nat <img> | conv <img> | ref <img> | cview <img> <canary>
+//   xskips <fmt> <pix> <bytes/pixel> <w> <h> <pattern> <src>               img <img> | full ok|err:io | sk <it==end> <row>... | sk err:io
 //   xsmall <fmt> <pix> <bytes/pixel> <w> <h> <vw> <vh> <tlx> <tly> <dx> <dy> <src>   ok|err:io <canary>
 #define BOOST_GIL_IO_ENABLE_GRAY_ALPHA
 #include "../C12/c12.hpp"
@@ -71,6 +72,31 @@ std::string run_op(std::vector<std::string> const& w, std::string const& path, I
         r += " | view " + vs + (frame_intact<CB>(gil::view(big), 2, 2, iw, ih, gil::view(ref)) ? " canary-ok" : " canary-damaged");
         r += " | info " + attempt([&] { auto be = gil::read_image_info(path, Tag()); return std::to_string((long)be._info._width) + " " + std::to_string((long)be._info._height); });
         return r; }
+    if (w[0] == "xskips") {       // the scanline iterator driven by a pattern (see main.cpp: skips); byte pixels only: the row buffer is seen as a row of Img's pixels
+        if constexpr (gil::is_bit_aligned<typename Img::value_type>::value) return "unsupported"; else {
+        std::string const& pat = w[6];
+        using reader_t = gil::scanline_reader<typename gil::get_read_device<char const*, Tag>::type, Tag>;
+        using pixel_t = typename Img::value_type;
+        Img img; std::string r = "img " + attempt([&] { gil::read_image(path, img, Tag()); return show<CB>(img); });
+        r += " | full " + attempt([&] { reader_t rd = gil::make_scanline_reader(path.c_str(), Tag());
+            for (auto it = rd.begin(), end = rd.end(); it != end; ++it) { unsigned char const* b = *it; (void)b; }
+            return std::string("ok"); });
+        r += " | sk " + attempt([&] {
+            reader_t rd = gil::make_scanline_reader(path.c_str(), Tag());
+            if ((size_t)rd._scanline_length != (size_t)rd._info._width * sizeof(pixel_t)) return std::string("err:io");   // another row layout than Img's
+            auto it = rd.begin(), end = rd.end(); std::string out;
+            for (size_t i = 0; i < pat.size();) {
+                if (pat[i] == 's') { size_t j = i; while (j < pat.size() && pat[j] == 's') ++j;
+                    if (j - i > 1) std::advance(it, (long)(j - i)); else ++it;
+                    i = j; continue; }
+                unsigned char* b = *it;
+                for (int rep = 0; rep < (pat[i] == 'D' ? 2 : 1); ++rep) {
+                    if (rep) b = *it;
+                    auto rv = gil::interleaved_view((std::size_t)rd._info._width, 1, (pixel_t*)b, (std::ptrdiff_t)rd._scanline_length);
+                    out += " " + hex(dump<CB>(rv)); }
+                ++it; ++i; }
+            return std::string(it == end ? "1" : "0") + out; });
+        return r; } }
     if (w[0] == "xsmall") {
         int vw = I(6), vh = I(7); auto st = settings<Tag>(I(8), I(9), I(10), I(11));
         Img big(vw + 4, vh + 4); paint(gil::view(big), 0xC3); Img ref(big);
